@@ -174,15 +174,15 @@ class Gen:
         kinds = ["push", "push", "stack", "arith", "arith", "compare", "comb", "comb", "option_or", "list", "setmap", "setmap",
                  "strbytes", "strbytes", "env", "usetop", "usetop", "usetop", "pack"]
         if depth > 0:
-            kinds += ["if", "lambda", "loop", "iter", "dip", "ifnone"]
+            kinds += ["if", "lambda", "loop", "iter", "dip", "ifnone", "dipstack"]
         if self.profile == "tickets":
             kinds = ["ticket"] * 12 + ["stack", "stack", "push", "option_or", "usetop"] + (["ifnone", "dip"] if depth > 0 else [])
         elif self.profile == "collections":
             kinds = ["setmap"] * 7 + ["list"] * 3 + ["comb"] * 2 + ["usetop", "usetop", "stack", "arith", "option_or"] + \
                 (["ifnone", "dip", "iter"] if depth > 0 else [])
         elif self.profile == "combs":
-            kinds = ["combpush"] * 8 + ["comb"] * 3 + ["pack"] * 2 + ["usetop"] * 3 + ["stack", "push", "option_or", "setmap", "list"] + \
-                (["ifnone", "dip", "iter", "if", "lambda"] if depth > 0 else [])
+            kinds = ["combpush"] * 7 + ["fieldflow"] * 8 + ["comb"] * 3 + ["pack"] * 2 + ["usetop"] * 3 + \
+                ["stack", "push", "option_or", "setmap", "list"] + (["ifnone", "dip", "iter", "if", "lambda", "lambda"] if depth > 0 else [])
         elif self.profile == "core":
             kinds += ["ticket"]
             if self.d(st.integers(0, 60)) == 0:
@@ -292,14 +292,33 @@ class Gen:
         if k == "GET":
             code.append(P("GET", I(self.d(st.integers(0, 2 * n - 2)))))
         elif k == "UPDATE":
-            t = self.d(small_type(0))
             idx = self.d(st.integers(0, 2 * n - 2))
+            t = self._replacement_type(tys, idx)
             code += [push(t, self.d(gt.values(t))), P("UPDATE", I(idx))]
         elif k == "UNPAIRn":
             code.append(P("UNPAIR", I(self.d(st.integers(2, n)))))
         elif k in ("CAR", "CDR", "UNPAIR"):
             code.append(P(k))
         return code
+
+    def _replacement_type(self, tys, idx):
+        """Type of the element given to UPDATE idx on a comb of component types tys: often the same head constructor as the
+        component it replaces but with different arguments (option nat -> option string), so that a stale type shows."""
+        old = None
+        if idx % 2 == 1 and idx // 2 < len(tys):
+            old = tys[idx // 2]
+        elif idx and idx // 2 - 1 < len(tys):
+            old = rv.pair_t(*tys[idx // 2:]) if len(tys) - idx // 2 >= 2 else tys[-1]
+        if old is not None and rv.targs(old) and self.d(st.integers(0, 3)):
+            for _ in range(4):
+                new_args = []
+                for a in rv.targs(old):
+                    cmp_needed = old["prim"] in ("set", "map") and not new_args
+                    new_args.append(self.d(small_type(0, comparable=cmp_needed)))
+                cand = T(old["prim"], *new_args)
+                if cand != old and rv.is_pushable(cand):
+                    return cand
+        return self.d(small_type(self.d(st.integers(0, 1))))
 
     def c_combpush(self, ts, depth):
         """PUSH of a right comb type (so that its type expression can carry annotations) + a comb instruction."""
@@ -313,7 +332,10 @@ class Gen:
             code.append(P("GET", I(self.d(st.integers(0, 2 * n - 2)))))
         elif k == "UPDATE":
             idx = self.d(st.integers(0, 2 * n - 2))
-            t2 = self.d(small_type(0))
+            composite = [2 * i + 1 for i, ct in enumerate(tys[:-1]) if rv.targs(ct)]
+            if composite and self.d(st.integers(0, 9)) < 6:
+                idx = self.pick(composite)
+            t2 = self._replacement_type(tys, idx)
             code += [push(t2, self.d(gt.values(t2))), P("UPDATE", I(idx))]
         elif k == "UNPAIRn":
             code.append(P("UNPAIR", I(self.d(st.integers(2, n)))))
@@ -326,6 +348,54 @@ class Gen:
         elif k == "COMPARE" and rv.is_comparable(t):
             code += [push(t, self.d(gt.values(t))), P("COMPARE")]
         return code
+
+    def c_fieldflow(self, ts, depth):
+        """Any other chunk, with its top-level PUSH t v rewritten to PUSH (pair t u) (Pair v u'); CAR (or CDR / GET k on a
+        longer comb): same meaning, but the operand now comes out of a pair component, whose type can carry a field annotation."""
+        kind = self.pick(["arith", "arith", "compare", "option_or", "list", "list", "setmap", "setmap", "setmap", "strbytes", "strbytes",
+                          "strbytes", "pack", "comb", "push", "ticket"] + (["lambda", "lambda", "iter"] if depth > 0 else []))
+        chunk = getattr(self, "c_" + kind)(ts, depth)
+        out = []
+        for ins in chunk:
+            if isinstance(ins, dict) and ins.get("prim") == "PUSH" and not rv.contains_type(ins["args"][0], {"lambda"}) \
+                    and self.d(st.integers(0, 9)) < 7:
+                out += self._via_pair(ins["args"][0], ins["args"][1])
+            else:
+                out.append(ins)
+        return out
+
+    def _via_pair(self, t, v):
+        ot = self.d(small_type(0))
+        ov = rv.to_micheline(ot, self.d(gt.values(ot)))
+        shape = self.pick(["CAR", "CDR", "GET1", "GET2", "GET3", "GET4", "UNPAIR", "UNPAIR3"])
+        pr = lambda a, b: {"prim": "Pair", "args": [a, b]}
+        if shape in ("CAR", "GET1"):
+            return [P("PUSH", T("pair", t, ot), pr(v, ov)), P("CAR") if shape == "CAR" else P("GET", I(1))]
+        if shape in ("CDR", "GET2"):
+            return [P("PUSH", T("pair", ot, t), pr(ov, v)), P("CDR") if shape == "CDR" else P("GET", I(2))]
+        if shape == "GET3":
+            return [P("PUSH", rv.pair_t(ot, t, ot), pr(ov, pr(v, ov))), P("GET", I(3))]
+        if shape == "GET4":
+            return [P("PUSH", rv.pair_t(ot, ot, t), pr(ov, pr(ov, v))), P("GET", I(4))]
+        if shape == "UNPAIR":
+            return [P("PUSH", T("pair", t, ot), pr(v, ov)), P("UNPAIR"), P("SWAP"), P("DROP")]
+        return [P("PUSH", rv.pair_t(t, ot, ot), pr(v, pr(ov, ov))), P("UNPAIR", I(3)), P("DIG", I(2)), P("DROP"), P("SWAP"), P("DROP")]
+
+    def c_dipstack(self, ts, depth):
+        """DIP / DIP n whose body is made of stack-shuffling instructions addressed by depth (DUP n, DIG, DUG, DROP n, PAIR n...)."""
+        if len(ts) < 2:
+            return self.c_push(ts, depth) + self.c_push(ts, depth)
+        n = self.d(st.integers(1, min(len(ts) - 1, 3)))
+        cur = list(ts[n:])
+        body = []
+        for _ in range(self.d(st.integers(1, 3))):
+            ch = self.c_stack(cur, depth) if self.d(st.integers(0, 4)) else self.c_dipstack(cur, depth - 1) if depth > 1 else self.c_stack(cur, depth)
+            new = types_after(ch, cur)
+            if new is None:
+                break
+            body += ch
+            cur = new
+        return [P("DIP", body) if n == 1 and self.d(st.booleans()) else P("DIP", I(n), body)]
 
     def c_option_or(self, ts, depth):
         t = self.d(small_type(0))
@@ -417,7 +487,9 @@ class Gen:
             elif k == "ITER" and depth > 0:
                 code.append(P("ITER", self.preserving([kt] + ts, ts, self.d(st.integers(0, 2)), depth)))
             return code
-        vt = self.d(small_type(0))
+        vt = self.d(small_type(0 if self.d(st.integers(0, 2)) else 1))
+        if self.profile == "combs" or self.d(st.integers(0, 3)) == 0:  # values that are pairs: MAP / ITER bodies can project them
+            vt = T("pair", self.d(small_type(0)), self.d(small_type(0)))
         ct = T("map", kt, vt)
         sub = ks[:self.d(st.integers(1 if coll else 0, len(ks)))]
         code = [push(ct, [(k, self.d(gt.values(vt))) for k in sub])]
@@ -433,8 +505,11 @@ class Gen:
         elif k == "ITER" and depth > 0:
             code.append(P("ITER", self.preserving([T("pair", kt, vt)] + ts, ts, self.d(st.integers(0, 2)), depth)))
         elif k == "MAP":
-            f = self.pick([[P("CDR")], [P("CAR")], [P("DROP"), P("UNIT")], [P("CDR"), P("SOME")]])
-            code.append(P("MAP", f))
+            fs = [[P("CDR")], [P("CAR")], [P("DROP"), P("UNIT")], [P("CDR"), P("SOME")]]
+            if vt["prim"] == "pair":
+                fs += [[P("CDR"), P("CAR")], [P("CDR"), P("CDR")], [P("CDR"), P("GET", I(1))], [P("CDR"), P("UNPAIR"), P("DROP")],
+                       [P("CDR"), P("CAR"), P("SOME")], [P("UNPAIR"), P("DROP"), P("CDR")]] * 2
+            code.append(P("MAP", self.pick(fs)))
         return code
 
     def c_strbytes(self, ts, depth):
@@ -520,7 +595,7 @@ class Gen:
                 body.append(P("DIP", [P("DROP", I(len(out) - 1))]))
             rt = out[0]
         code = [P("LAMBDA", at, rt, body)]
-        k = self.pick(["EXEC", "EXEC", "keep", "APPLY"])
+        k = self.pick(["EXEC", "EXEC", "keep", "APPLY", "APPLY"])
         if k == "EXEC":
             code += [push(at, self.d(gt.values(at))), P("EXEC")]
         elif k == "APPLY":
@@ -535,8 +610,9 @@ class Gen:
                 if len(o2) > 1:
                     b2.append(P("DIP", [P("DROP", I(len(o2) - 1))]))
                 r2 = o2[0]
-            code = [P("LAMBDA", T("pair", a1, a2), r2, b2), push(a1, self.d(gt.values(a1))), P("APPLY"),
-                    push(a2, self.d(gt.values(a2))), P("EXEC")]
+            code = [P("LAMBDA", T("pair", a1, a2), r2, b2), push(a1, self.d(gt.values(a1))), P("APPLY")]
+            if self.d(st.integers(0, 2)):
+                code += [push(a2, self.d(gt.values(a2))), P("EXEC")]  # otherwise the partially applied lambda stays on the stack
         return code
 
     def c_loop(self, ts, depth):
@@ -566,7 +642,11 @@ class Gen:
         o = self.pick(opts)
         unwrap = P("IF_NONE", [push(T("string"), "none"), P("FAILWITH")], [])
         if o == "join2":  # two fresh tickets of one type, equal or different contents, joined
-            ct = self.pick([T("nat"), T("string"), T("pair", T("nat"), T("string"))])
+            ct = self.pick([T("nat"), T("string"), T("pair", T("nat"), T("string")), T("option", T("option", T("nat"))), T("bool"),
+                            T("or", T("nat"), T("string")), T("pair", T("nat"), T("option", T("option", T("unit")))), T("bytes"),
+                            T("option", T("bool")), None, None, None])
+            if ct is None:  # any comparable type
+                ct = self.d(gt.comparable_types(2, ["int", "nat", "string", "bytes", "bool", "unit", "address", "key_hash", "mutez"]))
             c1 = self.d(gt.values(ct))
             c2 = c1 if self.d(st.booleans()) else self.d(gt.near(ct, c1))
             a1, a2 = self.d(st.integers(1, 9)), self.d(st.integers(1, 9))
@@ -629,7 +709,7 @@ for _op, _tb in ra.BINARY.items():
 
 
 @st.composite
-def programs(draw, n_inputs=(0, 3), size=(1, 8), depth=2, profile="core"):
+def programs(draw, n_inputs=(0, 3), size=(1, 8), depth=2, profile="core", keep_lambdas=False):
     """Returns dict(inputs=[(type, value)...] top first, code=[...])."""
     g = Gen(draw, profile, depth)
     k = draw(st.integers(*n_inputs))
@@ -639,7 +719,7 @@ def programs(draw, n_inputs=(0, 3), size=(1, 8), depth=2, profile="core"):
         inputs.append((t, draw(gt.values(t))))
     code, out = g.block([t for t, _ in inputs], draw(st.integers(*size)), depth)
     # lambdas cannot be compared literally: drop every remaining slot whose type contains a lambda
-    if out is not None:
+    if out is not None and not keep_lambdas:
         for i in reversed(range(len(out))):
             if rv.contains_type(out[i], {"lambda"}):
                 code.append(P("DIG", I(i)))
